@@ -1439,6 +1439,8 @@ class Exec:
             k = self.fresh_key(a.kty)
             ks = list(key_terms(k))
             return z3.ForAll(ks, to_z3(a.has(k)) == to_z3(b.has(k)))
+        if any(isinstance(x, Opaque) and x.kind == "mixed" for x in (a, b)):
+            return values_equal(a, b)
         if isinstance(a, Opaque) or isinstance(b, Opaque):
             return self.ctx.lib.opaque_eq(self, st, a, b)
         return values_equal(a, b)
